@@ -103,10 +103,43 @@ def rule_d(R, ctx):
     R.ob("C11.d", fn, "segments", kinds == {"Key", "Index"}, "path segments pushed: %s" % sorted(kinds))
 
 
+def rule_e(R, ctx):
+    import re
+    Y = ctx.yrs
+    R.rule("C11.e", "R-ORDER flush before re-attributing: in TextEvent::get_delta every mutation of the assembler's pending attribute "
+                    "set (`asm.attrs.insert/remove`) is dominated by the test of the pending action that flushes the operation "
+                    "collected so far (`if asm.action == .. { asm.add_op() }`) — changing the attributes first emits the retain that "
+                    "covers the text before the mark with the attributes that only apply after it")
+    fn = Y.fn("yrs::types::text::TextEvent::get_delta")
+    v = FnView(fn)
+    cfg = fn.cfg()
+    tests = set()
+    for cs in fn.calls():
+        if F.strip_generics(cs.name).endswith("DeltaAssembler::add_op") or F.strip_generics(cs.name).endswith("::add_op"):
+            for l in v.guards(cs.bb):
+                t = l.term
+                if t[0] == "call" and re.search(r"PartialEq(<.*>)?>?::eq$", t[1]) and l.polarity is True and \
+                        any(x[0] == "field" and x[1].endswith("DeltaAssembler.action") for x in walk(t)):
+                    # the flush is the first thing on the true edge of the test
+                    if cfg.dominates(l.bb, cs.bb):
+                        tests.add(l.bb)
+    R.floor("C11.e", "flush tests `asm.action == .. => add_op()` in get_delta", len(tests), 3)
+    muts = [cs for cs in fn.calls() if re.search(r"HashMap::(insert|remove)$", F.strip_generics(cs.name))
+            and term_has_field(v.arg(cs, 0, 10), "DeltaAssembler.attrs")]
+    R.floor("C11.e", "mutations of asm.attrs in get_delta", len(muts), 6)
+    for cs, site in ordinal_sites(muts):
+        ok = any(cfg.dominates(t, cs.bb) and t != cs.bb for t in tests)
+        R.ob("C11.e", fn, site, ok,
+             "the pending operation is flushed (under the action test) before the attributes change" if ok else
+             "asm.attrs is changed on a path that has not passed the flush test of the pending action: the operation collected so "
+             "far is emitted with the new attributes", cs.loc())
+
+
 def check(ctx, R):
     R.run("C11.a", rule_a, ctx)
     R.run("C11.b", rule_b, ctx)
     R.run("C11.d", rule_d, ctx)
+    R.run("C11.e", rule_e, ctx)
     if ctx.tier == "thorough":
         from . import witness
         R.run("C11.c", witness.c11_c, ctx)
